@@ -64,10 +64,36 @@ package verifspec
 //@   ensures !FC ==> len(file.Decls) == len(old(file.Decls)) && forall(k, 0, len(file.Decls), typeis(old(file.Decls)[k], "*go/ast.FuncDecl") ==> file.Decls[k] == old(file.Decls)[k])
 //@ extern go/ast.Inspect
 //@   param node f
-//@ extern build.pruneImports
+// pruneImports: an import that is otherwise unused survives (as a blank import) exactly when it is the import a directive
+// needs: "unsafe" for //go:linkname, "embed" for //go:embed; the check asks HasDirectivePrefix for the prefix that belongs
+// to the import path.
+//@ extern compiler/astutil.HasDirectivePrefix
+//@   param file prefix
+//@   assigns nothing
+//@ extern compiler/astutil.ImportName
+//@   param spec
+//@   assigns nothing
+//@ extern strconv.Unquote
+//@   param s
+//@   results t err
+//@ extern build.isOnlyImports
 //@   param file
-//@   assigns file.Decls, file.Imports, file.Comments
+//@   assigns nothing
+//@ func build.pruneImports
+//@ property C12
+//@   panics_only_if true
+//@   requires file != nil
+//@   assigns file.Decls, file.Imports, file.Comments, heap(GenDecl.Specs), heap(ValueSpec.Names), heap(ValueSpec.Values), heap(ImportSpec.Name)
 //@   ghost pruned = true
+//@   ensures pruned
+//@   loop 1 invariant !isnil(unused)
+//@   loop 2 invariant true
+//@   loop 3 invariant !isnil(isUnusedSpec)
+//@   loop 4 invariant true
+//@   loop 5 invariant true
+//@   loop 6 invariant true
+//@   oncall HasDirectivePrefix: assert key(path) == key("unsafe") ==> a1 == "//go:linkname "
+//@   oncall HasDirectivePrefix: assert key(path) == key("embed") ==> a1 == "//go:embed "
 
 // augmentOverlayFile: every function or method declared in the overlay is recorded under its key, with the
 // keep-original flag of its directive, and with the declaration itself as the signature override exactly when it
